@@ -47,6 +47,11 @@ type entry struct {
 	m       []byte // the model: a Go slice, views share the parent's backing array
 	group   int
 	retired bool
+	// lenOnly: a former alias partner has been resized. Whether a later write through that partner still reaches this
+	// blob legitimately differs between Go slices and typed arrays, so its bytes are no longer pinned -- but its LENGTH is:
+	// in the []byte model a view is its own sequence, and resizing one never changes the length of another.
+	lenOnly bool
+	wantLen int
 }
 
 type machine struct {
@@ -56,6 +61,7 @@ type machine struct {
 	// stats
 	aliasedSet bool
 	outOfRange int
+	lenOnlyN   int
 	nontrivial bool
 }
 
@@ -69,8 +75,11 @@ func newMachine(h Header) *machine {
 
 func (m *machine) retireGroupExcept(e *entry) {
 	for _, o := range m.pool {
-		if o != e && o.group == e.group {
+		if o != e && o.group == e.group && !o.retired {
 			o.retired = true
+			o.lenOnly = true
+			o.wantLen = len(o.m)
+			m.lenOnlyN++
 		}
 	}
 }
@@ -78,6 +87,17 @@ func (m *machine) retireGroupExcept(e *entry) {
 // compareAll checks every live blob against its model.
 func (m *machine) compareAll(after string) (string, string) {
 	for i, e := range m.pool {
+		if e.retired && e.lenOnly {
+			var l int
+			pan, hung := vf.Guard(func() { l = e.impl.Len(); l2 := len(e.impl.Bytes()); _ = l2 })
+			if pan != "" || hung {
+				return "observe-crash", fmt.Sprintf("after %s: Len/Bytes of blob %d: %s hung=%v", after, i, pan, hung)
+			}
+			if l != e.wantLen {
+				return "alias-length", fmt.Sprintf("after %s: blob %d (an alias partner of the resized blob) has Len=%d, model %d", after, i, l, e.wantLen)
+			}
+			continue
+		}
 		if e.retired {
 			continue
 		}
@@ -254,6 +274,20 @@ func (m *machine) step(s Step) (string, string) {
 			if err != nil {
 				return base + ":in-range-error", fmt.Sprintf("%s on a blob of length %d: %v", desc, n, err)
 			}
+			// cutting one sequence short neither shortens nor rewrites its alias partners (re-slice in Go, a new
+			// typed-array header in js): checked once, right here, before their bytes stop being pinned
+			for i, o := range m.pool {
+				if o == e || o.retired || o.group != e.group {
+					continue
+				}
+				var b []byte
+				if pan, hung := vf.Guard(func() { b = o.impl.Bytes() }); pan != "" || hung {
+					return base + ":observe-crash", fmt.Sprintf("after %s: Bytes of blob %d: %s hung=%v", desc, i, pan, hung)
+				}
+				if !bytes.Equal(b, o.m) {
+					return base + ":alias-changed", fmt.Sprintf("after %s: alias partner %d has Bytes=%q, model %q", desc, i, b, o.m)
+				}
+			}
 			m.retireGroupExcept(e)
 			e.m = append([]byte(nil), e.m[:s.A]...)
 			e.group = m.groups
@@ -287,6 +321,12 @@ func genStep(t *rapid.T, m *machine) Step {
 		s.A, s.B = arg("start"), arg("end")
 		if rapid.IntRange(0, 3).Draw(t, "ordered") != 0 && s.A > s.B {
 			s.A, s.B = s.B, s.A
+		}
+		switch rapid.IntRange(0, 7).Draw(t, "boundary") {
+		case 0:
+			s.A, s.B = 0, int64(n) // the whole blob
+		case 1:
+			s.B = s.A // empty
 		}
 	case "set":
 		s.J = rapid.SampledFrom(live).Draw(t, "j")
@@ -333,6 +373,9 @@ func prop(impl string) func(rt *rapid.T, rec *vf.Rec) {
 		}
 		if m.outOfRange > 0 {
 			rec.Class("has-out-of-range-call")
+		}
+		if m.lenOnlyN > 0 {
+			rec.Class("resize-with-alias-partners")
 		}
 		if m.nontrivial || m.outOfRange > 0 {
 			rec.NonTrivial()
